@@ -9,6 +9,9 @@ TRUST = ("Trusted base: Go type checker and go/ssa construction (x/tools v0.29.0
 
 # id -> (claimed?, technique, level text, not-decided / note, design ref)
 P = {
+ "C08": (True, "static analysis: interprocedural blocking-operation classifier with parameter-binding provenance of the call context; dominance / must-pass-through in sendMsg",
+         "Decides that no wait on a call's path ignores the call's context: every blocking operation reachable from the six entry points and the two per-call goroutines is a select with a case on Done() of the call's own context (followed through call-site parameter bindings and request literals), a capacity-bounded reply send or a short mutex hold; the stream write is cancellable (ctx test, watcher goroutine, close(done)); RPCCall returns ctx.Err(). A necessary condition for 'returns promptly', not a bound.",
+         "Not decided: the delay itself; gRPC's reaction to cancellation; select fairness.", "DESIGN.md section 3, C08"),
  "C05": (True, "static analysis: who-may-X over SSA, lock-state dataflow (guarded-by, same-critical-section), dominance and capacity side conditions",
          "Decides id uniqueness plumbing (one fresh atomic id per invocation shared by all its messages), register-before-queue in enqueue, that the router map is only touched under its mutex, deliver-then-delete atomicity with the streaming exemption, the id echo on the server side (WrapMessage writes only Status; generated handlers echo in.Metadata), reply-channel capacity >= number of registering enqueues, and that every response names the producing node. Necessary structural conditions.",
          "Not decided: transport cross-talk; 64-bit counter wrap; reply content.", "DESIGN.md section 3, C05"),
